@@ -153,7 +153,7 @@ Definition sv_rule_root_distinct (s : schema) : bool := sv_nodup (sv_roots s).
    them is not). *)
 
 Definition sv_reserved (n : str) : bool :=
-  match n with 95 :: 95 :: _ => true | _ => false end.
+  match n with a :: b :: _ => (a =? 95) && (b =? 95) | _ => false end.
 
 Definition sv_args_names_ok (args : list inputvaldef) : bool :=
   forallb (fun a => negb (sv_reserved (iv_name a))) args.
